@@ -43,7 +43,9 @@ TCopy == /\ Is("copy")
 \* another comparator is refused without modifying the database
 TLsBefore == Is("ls_before") /\ lsb' = Own(SetOf(Ev.names)) /\ UNCHANGED <<holder, cur, exists, views>>
 TWrongCmp == Is("open_wrongcmp") /\ Ev.rc # 0 /\ UNCHANGED <<holder, cur, exists, views, lsb>>
-TLsAfter == Is("ls_after") /\ Own(SetOf(Ev.names)) = lsb /\ UNCHANGED <<holder, cur, exists, views, lsb>>
+\* (while somebody holds the database, the holder's own background compactions may create and remove files between the
+\*  two listings; the refused open is then decided by the lock alone, and the contents are checked by the later scans)
+TLsAfter == Is("ls_after") /\ (holder = None => Own(SetOf(Ev.names)) = lsb) /\ UNCHANGED <<holder, cur, exists, views, lsb>>
 \* destroy removes the database's own files and nothing else; while somebody holds it, it is refused and changes nothing
 TDestroy == /\ Is("destroy")
             /\ IF holder = None THEN Ev.rc = 0 /\ cur' = Empty /\ exists' = FALSE
